@@ -133,3 +133,19 @@ def replay(pid: str, path: str) -> int:
     import checks
     # a replay re-executes the check with the recorded tier and seed
     return checks.run_check(pid, rp.get("tier", "quick"), rp.get("seed", 0))
+
+
+def _c06(o, driver, rng):
+    import suites_world as sw, monitors_world as mw
+    suite = sw.suite_cycles(rng, o.tier)
+    if driver is not None:
+        o.suites.append(sp.run_suite(driver, suite))
+    vio, n = mw.monitor_c06(suite)
+    o.monitor_stats["impl_monitor_evaluations"] = n
+    o.monitor_stats["impl_monitor_violations"] = len(vio)
+    o.violations.extend(vio)
+    _replay_d7("C06")(o, driver, rng)
+
+
+PROPERTIES["C06"] = {"run": _c06, "assumptions": ["two connection paths between the same simulators have the same cutoff (no path leaves a group and re-enters it): finding D7 otherwise",
+                                                     "the worklist's pick (Python set.pop) is an oracle; three different oracles are compared on the model side"]}
